@@ -463,3 +463,66 @@ package boltz
 //@   props C14
 //@   pure
 //@   ensures[raw-directed-or-empty] result != nil && (istype(result, ast.emptyCursor) || (forward && istype(result, *ForwardBoltCursor)) || (!forward && istype(result, *ReverseBoltCursor)))
+
+// ---------------------------------------------------------------------------
+// uniqueIndexScanner as a cursor (C02 "same answer with cursor-style iteration", C14)
+// ---------------------------------------------------------------------------
+
+// Next(): skips non-matching elements; matching elements are consumed by the offset until it reaches
+// targetOffset, the next one is produced; nothing is produced once targetLimit values have been.
+//@ func (*uniqueIndexScanner).Next
+//@   props C02 C14
+//@   requires scanner.cursor != nil && scanner.rowCursor != nil && scanner.filter != nil && scanner.store != nil
+//@   requires 0 <= curPos[scanner.cursor] && curPos[scanner.cursor] <= curLen[scanner.cursor]
+//@   requires 0 <= scanner.offset && scanner.offset <= max(scanner.targetOffset, 0) && 0 <= scanner.collected && scanner.collected < MaxInt64
+//@   modifies scanner.current, scanner.offset, scanner.collected, curPos[scanner.cursor], scanner.rowCursor.currentRow, symRow[scanner.rowCursor]
+//@   ensures[limit-reached] old(scanner.collected) >= scanner.targetLimit ==> scanner.current == nil && scanner.collected == old(scanner.collected) && scanner.offset == old(scanner.offset)
+//@   ensures[produced] scanner.current != nil ==> old(curPos[scanner.cursor]) < curPos[scanner.cursor] && curPos[scanner.cursor] <= curLen[scanner.cursor] && str(scanner.current) == curSeq[scanner.cursor][curPos[scanner.cursor]-1] && matches(curSeq[scanner.cursor], scanner.filter, scanner.store, curPos[scanner.cursor]-1) && scanner.collected == old(scanner.collected) + 1 && scanner.offset >= scanner.targetOffset
+//@   ensures[offset-consumed] scanner.current != nil ==> scanner.offset == old(scanner.offset) + cnt(curSeq[scanner.cursor], scanner.filter, scanner.store, curPos[scanner.cursor]-1) - cnt(curSeq[scanner.cursor], scanner.filter, scanner.store, old(curPos[scanner.cursor]))
+//@   ensures[exhausted] scanner.current == nil && old(scanner.collected) < scanner.targetLimit ==> curPos[scanner.cursor] == curLen[scanner.cursor] && scanner.collected == old(scanner.collected) && scanner.offset == old(scanner.offset) + cnt(curSeq[scanner.cursor], scanner.filter, scanner.store, curLen[scanner.cursor]) - cnt(curSeq[scanner.cursor], scanner.filter, scanner.store, old(curPos[scanner.cursor]))
+//@   invariant 1: cursor == scanner.cursor && rowCursor == scanner.rowCursor && old(curPos[scanner.cursor]) <= curPos[scanner.cursor] && curPos[scanner.cursor] <= curLen[scanner.cursor]
+//@   invariant 1: scanner.collected == old(scanner.collected) && scanner.offset == old(scanner.offset) + cnt(curSeq[scanner.cursor], scanner.filter, scanner.store, curPos[scanner.cursor]) - cnt(curSeq[scanner.cursor], scanner.filter, scanner.store, old(curPos[scanner.cursor])) && scanner.offset <= max(scanner.targetOffset, 0)
+
+// Seek(val): the scanner then stands on a matching element that is not before val (or is exhausted)
+//@ func (*uniqueIndexScanner).Seek
+//@   props C14
+//@   requires scanner.cursor != nil && scanner.rowCursor != nil && scanner.filter != nil && scanner.store != nil
+//@   requires 0 <= curPos[scanner.cursor] && curPos[scanner.cursor] <= curLen[scanner.cursor]
+//@   requires 0 <= scanner.offset && scanner.offset <= max(scanner.targetOffset, 0) && 0 <= scanner.collected && scanner.collected < MaxInt64
+//@   requires !curDesc[scanner.cursor]
+//@   modifies scanner.current, scanner.offset, scanner.collected, curPos[scanner.cursor], scanner.rowCursor.currentRow, symRow[scanner.rowCursor]
+//@   ensures[at-or-after] scanner.current != nil ==> !(str(scanner.current) < str(val))
+//@   invariant 1: scanner.cursor != nil && scanner.rowCursor != nil && scanner.filter != nil && scanner.store != nil && 0 <= curPos[scanner.cursor] && curPos[scanner.cursor] <= curLen[scanner.cursor] && 0 <= scanner.offset && scanner.offset <= max(scanner.targetOffset, 0) && 0 <= scanner.collected && scanner.collected < MaxInt64
+
+// ValidIdsCursors: the ids of the wrapped cursor for which the (extended) store has data
+//@ func (Store).GetEntityBucket
+//@   pure
+//@   ensures (result != nil) == entPresent(self, str(id))
+//@ typeinv ValidIdsCursors: self.wrapped != nil && self.store != nil && 0 <= curPos[self.wrapped] && curPos[self.wrapped] <= curLen[self.wrapped]
+//@ func (*ValidIdsCursors).IsValid
+//@   props C14 C15
+//@   pure
+//@   ensures result == (curPos[cursor.wrapped] < curLen[cursor.wrapped])
+//@ func (*ValidIdsCursors).Current
+//@   props C14 C15
+//@   requires[valid] curPos[cursor.wrapped] < curLen[cursor.wrapped]
+//@   pure
+//@   ensures result != nil && str(result) == curSeq[cursor.wrapped][curPos[cursor.wrapped]]
+//@ func (*ValidIdsCursors).IsExtendedDataPresent
+//@   props C14 C15
+//@   requires[valid] curPos[cursor.wrapped] < curLen[cursor.wrapped]
+//@   pure
+//@   ensures result == entPresent(cursor.store, curSeq[cursor.wrapped][curPos[cursor.wrapped]])
+//@ func (*ValidIdsCursors).Next
+//@   props C14 C15
+//@   requires[valid] curPos[cursor.wrapped] < curLen[cursor.wrapped]
+//@   modifies curPos[cursor.wrapped]
+//@   ensures[advances] old(curPos[cursor.wrapped]) < curPos[cursor.wrapped] && curPos[cursor.wrapped] <= curLen[cursor.wrapped]
+//@   ensures[skips-only-absent] forall(j, old(curPos[cursor.wrapped]) < j && j < curPos[cursor.wrapped] ==> !entPresent(cursor.store, sel(curSeq[cursor.wrapped], j)))
+//@   ensures[lands-on-present] curPos[cursor.wrapped] < curLen[cursor.wrapped] ==> entPresent(cursor.store, curSeq[cursor.wrapped][curPos[cursor.wrapped]])
+//@   invariant 1: old(curPos[cursor.wrapped]) < curPos[cursor.wrapped] && curPos[cursor.wrapped] <= curLen[cursor.wrapped] && forall(j, old(curPos[cursor.wrapped]) < j && j < curPos[cursor.wrapped] ==> !entPresent(cursor.store, sel(curSeq[cursor.wrapped], j)))
+//@ func (*ValidIdsCursors).Seek
+//@   props C14 C15
+//@   modifies curPos[cursor.wrapped]
+//@   ensures[lands-on-present] curPos[cursor.wrapped] < curLen[cursor.wrapped] ==> entPresent(cursor.store, curSeq[cursor.wrapped][curPos[cursor.wrapped]]) && !before(curDesc[cursor.wrapped], curSeq[cursor.wrapped][curPos[cursor.wrapped]], str(bytes))
+//@   invariant 1: 0 <= curPos[cursor.wrapped] && curPos[cursor.wrapped] <= curLen[cursor.wrapped] && forall(i, curPos[cursor.wrapped] <= i && i < curLen[cursor.wrapped] ==> !before(curDesc[cursor.wrapped], sel(curSeq[cursor.wrapped], i), str(bytes)))
